@@ -219,7 +219,11 @@ def step (_ : Unit) (toks : List String) : Unit × String :=
       let ar ← pValList args
       let sb ← parseSubst rest
       let E : Env := { text := tx, args := ar, hasBackref := true, lenprefixLeak := false }
-      let m : Matcher := denMatcher E Spec.fetch ⟨[], p⟩ fuelC JanetModel.Gen.Peg.recursionGuard
+      -- the line carries `grammar [main := the source grammar, default-peg-grammar entries...]`
+      let (mainp, dflt) ← (match p with
+        | .grammar ((_, mp) :: dfl) => some (mp, dfl)
+        | _ => none)
+      let m : Matcher := denMatcher E (Spec.fetch dflt) ⟨[], mainp⟩ fuelC JanetModel.Gen.Peg.recursionGuard
       pure (runEntry entry m tx st sb)
     ((), r.getD "bad-op")
   | _ => ((), "bad-op")
